@@ -108,6 +108,42 @@ def run_job(job):
                         rl = s.de("setup", bx(st.ser), out="DS2")
                         rec.append(("setup_reloaded", rl.get("re")))
                     runs[ext] = rec
+                # (1b) the same with an external key whose serialized form is an opaque handle, not the raw scalar:
+                # anything the library computes from serialize() instead of the interface's operations shows up here
+                if len(runs) == 2:
+                    s.cmd("ext_opaque", on=True)
+                    rng = s.rng("r", wseed)
+                    ost = s.cmd("setup_new_with_key", rng=rng, sk=bytes(b ^ 0xA5 for b in sk), ext=True, out="OS")
+                    evals += 1
+                    orec = []
+                    if ost.failed:
+                        V("an external key with an opaque serialized form cannot be used (library interprets serialize() output)", str(dict((k, v) for k, v in ost.items() if k in ("err", "panic"))))
+                    else:
+                        orec.append(("setup_pk", ost.pk))
+                        # restore from its own bytes and answer registration + login with the restored setup
+                        orl = s.de("setupx", bx(ost.ser), out="OS2")
+                        if not orl.ok:
+                            V("a setup holding an opaque external key does not restore from its own bytes", str(orl.get("err")))
+                        for srv in ("OS", "OS2") if orl.ok else ("OS",):
+                            rng = s.rng("r", wseed)
+                            s.cmd("setup_new_with_key", rng=rng, sk=bytes(b ^ 0xA5 for b in sk), ext=True, out="Odummy")
+                            a = s.cmd("creg_start", rng=rng, pw=b"pw", out_state="Ocs", out_msg="Orq")
+                            b = s.cmd("sreg_start", setup=srv, req="Orq", cred=b"id", out="Orr")
+                            c = s.cmd("creg_finish", rng=rng, state="Ocs", pw=b"pw", resp="Orr", id_u=idu, id_s=ids, out="Oup")
+                            d = s.cmd("sreg_finish", upload="Oup", out="Ofile")
+                            e = s.cmd("clogin_start", rng=rng, pw=b"pw", out_state="Ocl", out_msg="Ocq")
+                            f = s.cmd("slogin_start", rng=rng, setup=srv, file=None if fake else "Ofile", req="Ocq", cred=b"id", ctx=ctx, id_u=idu, id_s=ids,
+                                      out_state="Osl", out_msg="Ocr")
+                            evals += 7
+                            got = [("setup_pk", ost.pk), ("reg_response", b.get("msg")), ("upload", c.get("msg")), ("export_key", c.get("export_key")),
+                                   ("server_s_pk", c.get("server_s_pk")), ("KE2", f.get("msg")), ("server_state", f.get("state"))]
+                            want = dict(runs[False])
+                            for n_, v_ in got:
+                                stats["compared_values"] += 1
+                                if v_ != want[n_]:
+                                    V("server with an opaque external key (%s) differs from the direct-key server in %s" % ("restored from bytes" if srv == "OS2" else "fresh", n_),
+                                      "world %d: direct %s opaque-external %s" % (wi, str(want[n_])[:160], str(v_)[:160]))
+                    s.cmd("ext_opaque", on=False)
                 if len(runs) == 2:
                     stats["equivalence_worlds"] += 1
                     for (n1, v1), (n2, v2) in zip(runs[False], runs[True]):
